@@ -86,6 +86,8 @@ def generate(package="numeric", spec_dir="specs"):
     known = {}
     used_constants = {}
     outputs = {}
+    by_key = {}
+    tables = {}
     for mod, (rel, specs) in load_modules(spec_dir).items():
         src = open(os.path.join(REPO, rel), encoding="utf-8").read()
         try:
@@ -95,10 +97,28 @@ def generate(package="numeric", spec_dir="specs"):
                 report["refused"][f"{mod}.{sp['name']}"] = f"syntax error: {e}"
             continue
         fns = {n.name: n for n in tree.body if isinstance(n, ast.FunctionDef)}
+        classes = {n.name: n for n in tree.body if isinstance(n, ast.ClassDef)}
         texts = {"real": [], "float": []}
+        prelude = False
         for sp in specs:
+            if "table" in sp:          # class holding a literal table  name -> tuple of numbers
+                key = f"{mod}.{sp['table']}"
+                try:
+                    if sp["table"] not in classes:
+                        raise py2lean.Refusal("class not found")
+                    tr = py2lean.Translator(C, known, src)
+                    for d in ("real", "float"):
+                        text, entries = tr.table(classes[sp["table"]], sp, d)
+                        texts[d].append(text)
+                    used_constants.update(tr.used_constants)
+                    report["functions"][key] = "ok"
+                    tables[key] = entries
+                except py2lean.Refusal as e:
+                    report["refused"][key] = str(e)
+                continue
             name = sp["name"]
-            key = f"{mod}.{name}"
+            lname = sp.get("as", name)
+            key = f"{mod}.{lname}"
             if name not in fns:
                 report["refused"][key] = "function not found"
                 continue
@@ -111,17 +131,32 @@ def generate(package="numeric", spec_dir="specs"):
                     spec = dict(sp)
                     spec["glue"] = prepare(fn, spec, fsrc)
                     spec["nparams"] = len(fn.args.args) - len(spec.get("fun_params", {}))
+                    if lname != name:
+                        fn.name = lname
                     text, notes = tr.function(fn, spec, d)
+                    if any(k in sp for k in ("tuple_params", "none_params")):
+                        spec["nparams"] = sum(int(k[7:]) if k.startswith("tparam:") else 0 if k == "none" else 1
+                                              for _, k in tr.pykinds if k != "fun")
                     per[d] = text
                     used_constants.update(tr.used_constants)
                     report["notes"][key] = notes
-                known[name] = {"nparams": spec["nparams"], "fun_params": sp.get("fun_params"),
-                               "tuple": " × " in per["float"].split(":=")[0], "rejects": f"def {py2lean.san(name)}_rejects" in per["float"]}
+                    prelude = prelude or tr.uses_while
+                head = per["float"].split(":=")[0]
+                info = {"nparams": spec["nparams"], "fun_params": sp.get("fun_params"),
+                        "tuple": " × " in head, "rejects": f"def {py2lean.san(lname)}_rejects" in per["float"],
+                        "ntuple": head.count(" × ") + 1 if " × " in head else 0,
+                        "pykinds": list(tr.pykinds), "lean_name": lname}
+                by_key[key] = info
+                if lname == name:
+                    known[name] = info
                 for d in per:
                     texts[d].append(per[d])
                 report["functions"][key] = "ok"
             except py2lean.Refusal as e:
                 report["refused"][key] = str(e)
+        if prelude:
+            for d in texts:
+                texts[d].insert(0, py2lean.Translator.PRELUDE[d].rstrip("\n") + "\n")
         outputs[mod] = (rel, texts)
     # constants
     creal = ["import Mathlib.Data.Real.Basic", "", "/-! GENERATED by tools/py2lean/gen_all.py from typhon/constants.py — do not edit.",
@@ -162,12 +197,18 @@ def generate(package="numeric", spec_dir="specs"):
             "  match name, a.size with"]
     for key in sorted(report["functions"]):
         mod, name = key.split(".")
-        k = known[name]
+        if key in tables:
+            for ename, arity in tables[key]:
+                comps = ", ".join(py2lean.Translator.proj("r", i, arity) for i in range(arity))
+                disp.append(f'  | "{name}.{ename}", 0 => let r := TF.{py2lean.san(name)}_{py2lean.san(ename)}; some #[{comps}]')
+            continue
+        k = by_key[key]
         n = k["nparams"]
         suffix = "_d" if k.get("fun_params") else ""
         args = " ".join(f"a[{i}]!" for i in range(n))
         if k.get("tuple"):
-            disp.append(f'  | "{name}", {n} => let r := TF.{py2lean.san(name)}{suffix} {args}; some #[r.1, r.2]')
+            comps = ", ".join(py2lean.Translator.proj("r", i, k["ntuple"]) for i in range(k["ntuple"]))
+            disp.append(f'  | "{name}", {n} => let r := TF.{py2lean.san(name)}{suffix} {args}; some #[{comps}]')
         else:
             disp.append(f'  | "{name}", {n} => some #[TF.{py2lean.san(name)}{suffix} {args}]')
         if k.get("rejects"):
